@@ -287,6 +287,18 @@ func decodeProp(prop string) *Prop {
 			Run: func(c *Ctx) { zoneHistoryRun(c, prop) },
 		},
 		{
+			// XMP start tags nested thousands to millions deep (20 MB inputs, a gigabyte of stack in a
+			// recursive parser): every case in a worker process of its own
+			Name: "deepnest", Phase: 1, Weight: 1, Fresh: true,
+			N: func(tier string, seed uint64) uint64 {
+				if tier == "thorough" {
+					return 48
+				}
+				return 6
+			},
+			Run: func(c *Ctx) { decodeMixed(c, prop, 8) },
+		},
+		{
 			// CR3-shaped files that repeat themselves: what one box may cost, times the number of boxes
 			Name: "repeat", Phase: 1, Weight: 1,
 			N: func(tier string, seed uint64) uint64 {
@@ -529,6 +541,10 @@ func decodeMixed(c *Ctx, prop string, class int) {
 	var e *harness.Entry
 	hi := 0
 	random := class == 1
+	deep := class == 8
+	if deep {
+		class = 4
+	}
 	if class == 7 {
 		// a CR3-shaped file that says the same thing many times (many CMT boxes full of long
 		// overlapping strings, many preview boxes that declare more than they hold)
@@ -614,6 +630,15 @@ func decodeMixed(c *Ctx, prop string, class int) {
 			pkt = "<x:xmpmeta xmlns:x='adobe:ns:meta/'><rdf:RDF xmlns:rdf='http://www.w3.org/1999/02/22-rdf-syntax-ns#'><rdf:Description rdf:about='' xmlns:tiff='http://ns.adobe.com/tiff/1.0/' tiff:Make='" + val + "'/></rdf:RDF></x:xmpmeta>"
 		default:
 			pkt = "<x:xmpmeta xmlns:x='adobe:ns:meta/'>" + strings.Repeat(" ", n) + "<rdf:RDF xmlns:rdf='http://www.w3.org/1999/02/22-rdf-syntax-ns#'><rdf:Description rdf:about='' xmlns:tiff='http://ns.adobe.com/tiff/1.0/' tiff:Make='x'/></rdf:RDF></x:xmpmeta>"
+		}
+		if deep {
+			// nesting instead of length: start tags inside start tags, thousands to millions deep (a
+			// parser that recurses per level pays with stack, which no recover() gives back)
+			levels := []int{4500000, 1000, 60000, 1000000}[int(c.Run)%4]
+			tag := []string{"<a:b>", "<rdf:Description>", "<x:y z='1'>"}[int(c.Run)/4%3]
+			pkt = "<x:xmpmeta xmlns:x='adobe:ns:meta/'><rdf:RDF xmlns:rdf='http://www.w3.org/1999/02/22-rdf-syntax-ns#'>" + strings.Repeat(tag, levels)
+			n = len(pkt)
+			c.Inc("probe:deeply-nested-xmp")
 		}
 		if gen.Bool() {
 			var o gengen.CR3Opts
